@@ -60,6 +60,7 @@ type c09probe struct {
 	msg        string
 	kvs        []gen.KV
 	spy        bool
+	utc        int     // the logger's UTC mode: 0 never chosen, 1 on, 2 off (configuration of the logger, an input of the call)
 	pc         uintptr // the frame the record is attributed to: one of the harness, or one inside the library's own package
 }
 
@@ -132,6 +133,12 @@ func c09hist(c *Ctx) {
 			slog.SetLevelOutputWidth(p.tagW)
 		}
 		lg := newRoot(p.name, p.f, w, slog.AlwaysLevel)
+		switch p.utc {
+		case 1:
+			lg.SetUTCMode(true)
+		case 2:
+			lg.SetUTCMode(false)
+		}
 		as := p.as
 		if as == nil {
 			as = attrsOf(p.kvs)
@@ -153,6 +160,9 @@ func c09hist(c *Ctx) {
 		}
 		if r.P(3) {
 			p.ts = time.Time{} // the zero instant is an instant like any other: the call carries it
+		}
+		if r.P(25) {
+			p.utc = 1 + r.Intn(2) // most loggers never choose a UTC mode; some switch it on, some off
 		}
 		if r.P(35) { // the presentation settings are inputs of the call too
 			p.minW, p.tagW = r.Range(16, 170), r.Range(1, 5)
